@@ -1,3 +1,8 @@
 package rules
 
-func writerEmissionRules(c *Ctx, prop string) {}
+// writerEmissionRules: both emission paths of the fragmenting writer apply the
+// send extensions to the header they write.
+func writerEmissionRules(c *Ctx, prop string) {
+	writerFlushFragmentRules(c, prop)
+	writerMethodRules(c, prop)
+}
